@@ -441,7 +441,21 @@ class Expander:
 
     def raw(self, expr):
         """Unexpanded term (local names stay ('name', id))."""
-        return to_term(expr, self.scope(None))
+        return to_term(expr, self._comp_scope(expr, self.scope(None)))
+
+    def raw1(self, expr):
+        """Like raw(), but a name that is a single-assignment temporary is replaced by the
+        raw term of its defining expression (so `t = f(x); return t` reads as `return f(x)`)."""
+        if isinstance(expr, ast.Name) and self.is_local(expr.id):
+            n_defs = sum(1 for ds in self.defs_at.values() for d in ds if d.var == expr.id)
+            is_param = any(d.var == expr.id for d in self.param_defs)
+            if n_defs == 1 and not is_param:
+                for ds in self.defs_at.values():
+                    for d in ds:
+                        if d.var == expr.id and d.kind == 'assign' and not d.index and \
+                                not isinstance(d.payload, ast.Name):
+                            return self.raw(d.payload)
+        return self.raw(expr)
 
     def value_of(self, name, at, after=False):
         defs = self.reaching(name, at, after=after)
